@@ -29,7 +29,7 @@ CHECKS = {
               "the optimised library code equal, as polynomials, the closed forms prescribed by the documented index map; the result again "
               "satisfies the layout invariant, so the identities extend to every finite composition by induction. Also: layout from "
               "extensions is row-major (all 2^D zero/non-zero size cases), nine access paths to one index tuple agree, empty results "
-              "report size 0. One polynomial identity covers all extents and strides at once, which no finite test set does."),
+              "report size 0. One polynomial identity covers all extents and strides at once, which no finite test set does. Owning arrays: the view operations they re-declare per value category (operator()() &&, taked / dropped &&, operator[] &&, begin / end for &, const&, &&) designate the same elements and shape as the inherited view operation (O01.owning; the array object's fields are identified by a probe of the compiled program and given the values of a canonical owning array)."),
         design_ref="DESIGN.md 3/C01, 2.2",
         note=IRNOTE + " Known finding: leading sizes collapse to 0 when an inner size is 0 (known_findings.json). Not decided: stored values, "
              "out-of-domain arguments, and R01.noeffect (no allocation) which is part of the C05/C08 fact base.",
@@ -44,7 +44,7 @@ CHECKS = {
               "(it+a)-=b, it=jt, it[b], front/back, size, end-begin. next_canonical / prev_canonical are the mixed-radix successor / predecessor "
               "for all 2^D carry patterns, to_linear(from_linear(k))==k. The flat iterator's own ++ / -- (pre and post forms) at a position given "
               "by its digits, one case per carry / borrow pattern, followed by -, [], += (O02.flat.step), and the end position reached by ++ "
-              "followed by -=, -, [] (O02.flat.endstep). Type-level iterator contract (W02)."),
+              "followed by -=, -, [] (O02.flat.endstep). Type-level iterator contract (W02). Cursors (home()): indexing, call form, += of an index tuple, the const cursor and stride<k>() designate the element at those offsets (O02.cursor)."),
         design_ref="DESIGN.md 3/C02",
         note=IRNOTE + " Flat-range laws here are for zero-based views (re-based: C19). Data-dependent carries are covered by the "
              "exhaustive carry-pattern case split (positions written in mixed radix, decided with a Euclidean-division rule under the case's sign "
@@ -90,7 +90,7 @@ CHECKS = {
         text=("reextent (three overloads): effect-free early return on equal extents; on resizing paths allocate, construct ALL new elements, copy over "
               "intersection(this->extensions(), new extensions), then destroy / deallocate old and commit; clear() ends empty; reshape touches only "
               "the layout. intersection(range / extension_t / extensions_t<1,2>) is exact for ALL integers: evaluated in the polynomial domain under "
-              "every weak ordering of its four endpoints (exhaustive for a function that only compares)."),
+              "every weak ordering of its four endpoints (exhaustive for a function that only compares). assign(first, last) keeps the storage only on paths guarded by equal count and, for D > 1, equal item extents; otherwise it rebuilds (R06.assign)."),
         design_ref="DESIGN.md 3/C06", note=ANOTE + " Engine L trusted base as for C01.",
         technique="order / effect rules over abstract-interpretation traces + order-type enumeration in the polynomial IR domain",
     ),
@@ -124,7 +124,7 @@ CHECKS = {
               "destroy), a failed constructor must leave no block, no block may be unowned. Plus: no noexcept function invokes something that may "
               "throw; every construct-in-a-loop helper catches all, destroys the prefix and rethrows; operations that need no storage have no "
               "allocation event. Covers every single injection point, which fault-injection tests only sample. 49 genuine defects of the pinned tree "
-              "(six root causes) are listed as known findings."),
+              "(six root causes) are listed as known findings. The noexcept scan is repeated for an element type whose own members are noexcept while conversion from a second element type throws, over operations between operands of different element types."),
         design_ref="DESIGN.md 3/C09, 6", note=ANOTE,
         technique="typestate analysis over exception edges (invoke / landingpad / resume) of -O0 LLVM IR",
     ),
@@ -134,7 +134,7 @@ CHECKS = {
               "quick, 8 thorough): allocate / deallocate only through the array's own alloc_ member; every block released through an allocator value "
               "equal to the allocating one; copy construction uses select_on_container_copy_construction; allocator-extended constructors use the "
               "supplied allocator; alloc_ is replaced exactly when the trait says so; at every normal exit the releasing allocator equals the "
-              "producing one unless an equality test dominates. Three root causes on the pinned tree are known findings."),
+              "producing one unless an equality test dominates. Three root causes on the pinned tree are known findings. An allocator-extended constructor's allocator is a copy of the argument itself (not select_on_container_copy_construction of it)."),
         design_ref="DESIGN.md 3/C10", note=ANOTE,
         technique="allocator-value tracking in the abstract interpreter; differential instantiation over trait configurations",
     ),
@@ -147,7 +147,7 @@ CHECKS = {
               "dereference and pointer_traits but no conversion to or from T* / void* (positive control: a raw conversion does not compile). W11.types: "
               "element_ptr, element_const_ptr, data_elements(), base() of that instantiation are the fancy pointer types. R11.flow: in the unoptimised IR of "
               "the strict instantiation no raw element address obtained from the fancy pointer (operator*, operator->, operator[], addressof, to_address) "
-              "is the base of element address arithmetic inside the library's functions."),
+              "is the base of element address arithmetic inside the library's functions. R11.life: per driver operation, the allocator members (allocate, deallocate, construct, destroy) reachable in the call graph of the fancy-pointer instantiation equal those of the raw-pointer instantiation with the same allocator. O11.cast: C12's projection obligations that compile over a pointer without raw conversions, evaluated over that pointer (covers the three branches on std::is_pointer_v<ElementPtr>)."),
         design_ref="DESIGN.md 3/C11",
         note="Not decided: element-for-element equality with the raw-pointer run, and that a bounds-tracking pointer is never dereferenced outside its storage "
              "(run-time quantities). Projection casts (member_cast, reinterpret_array_cast) reinterpret the pointer object by design and are outside the "
@@ -180,7 +180,7 @@ CHECKS = {
               "conjugated a, both fills and row- / column-major a and c: the zherk call updates the stated triangle of c with a a^H (G = a for C' = c, "
               "G = conj(a) for C' = c transposed); B13.syrk likewise for the real syrk. R13.conj: the in-place gemm wrapper with a conjugated output forwards conj(alpha), conj(beta) and "
               "conjugated operands. B13.l1: argument agreement (count, base, stride, conjugated operand "
-              "first in zdotc, the 1 x n zgemv form of dotu) of axpy, copy, swap, scal, dot, nrm2, asum, iamax."),
+              "first in zdotc, the 1 x n zgemv form of dotu) of axpy, copy, swap, scal, dot, nrm2, asum, iamax. R13.forms: 183 sibling comparisons - each lazy-range / operator / convenience form and each result constructed or assigned as a 0-D array issues exactly the external BLAS call (routine, counts, operands, increments, scalars, result location) of the iterator-level form of the same operation."),
         design_ref="DESIGN.md 3/C13",
         note=IRNOTE + " Decides the dispatch tables (a necessary condition of the numerical result), not numerical values, not the lazy gemm_range / "
              "operator forms' evaluation order, and not trsv / the lazy herk_range. "
@@ -206,7 +206,7 @@ CHECKS = {
               "(external events with opaque output handles) is interpreted in the type-map algebra of the MPI standard. M18.map: the (buffer, count, datatype) "
               "denotes, as a list of (count, byte stride) loop levels, exactly the view's canonical element order from its base. M18.life: every created "
               "datatype is freed exactly once, none is used after being freed, the datatype handed out is committed before and freed once after, predefined "
-              "datatypes are never freed."),
+              "datatypes are never freed. Ownership transfers of the committed datatype (message(buf, skeleton&&), skeleton(skeleton&&), std::move(skeleton).datatype()) are part of the lifecycle rule."),
         design_ref="DESIGN.md 3/C18",
         note=IRNOTE + " Trusted: the type-map algebra of MPI-3.1 section 4.1 as encoded in checks/c18.py; Open MPI's mpi.h. Assumes positive strides and non-empty "
              "views. Not decided: what an MPI implementation does with the message (packing, transfer, receive into another layout).",
@@ -249,7 +249,7 @@ CHECKS = {
               "sibling path ends in the assertion handler before any element write. (3) For each of ~70 owning-array / view operations per D the "
               "abstract event traces of the normal paths are identical with assertions enabled, with -DNDEBUG and with -DBOOST_MULTI_ASSERT_DISABLE "
               "(assertion conditions have no observable effect). (4) No NDEBUG-conditional code in the core headers. (5) Polynomial evaluation of "
-              "assertion-enabled -O2 IR: in-domain symbolic accesses reach no handler and give the C01 closed forms, out-of-range ones always reach it."),
+              "assertion-enabled -O2 IR: in-domain symbolic accesses reach no handler and give the C01 closed forms, out-of-range ones always reach it. For flat copies of D > 1 operands (array_ref assignment, elements() assignment) only a comparison over all dimensions counts as the guarding assertion."),
         design_ref="DESIGN.md 3/C20", note=ANOTE + " Engine L trusted base as for C01. Not decided: silence of every assertion for every valid program (undecidable in general).",
         technique="dominator analysis on -O0 LLVM IR, differential abstract interpretation across assertion configurations, preprocessor scan, polynomial IR evaluation",
     ),
